@@ -92,6 +92,8 @@ type PathState struct {
 	interposedAt []string
 	curThread   int
 	thread2Held []string
+	inSchedPoint bool
+	race        *raceState
 }
 
 func newPathState(prefix []int32) *PathState {
